@@ -255,13 +255,14 @@ theorem writeCore_some {m : VLog} (hi : Inv m) (k x : Bytes) (ops : List Nat) :
       have := versionsOf_addr_le k m.log (a, old) (by simp [hvs])
       simp at this; omega
     have hgv : VLog.getValue m.log a = old := getValue_top k m.log a old rest hvs
-    have hsw : (a != 0 && VLog.canModify m.stages.getLast? a
+    have hsw : (a != 0 && VLog.canModify m.stages.getLast? a && decide (a > m.lastCp)
           && decide ((if a = 0 then ([] : Bytes) else VLog.getValue m.log a).length > 0)
           && (if a = 0 then ([] : Bytes) else VLog.getValue m.log a).length == x.length)
-        = (Spec.canModify m.stages a && decide (old.length > 0) && old.length == x.length) := by
+        = (Spec.canModify (abs m).marks a && decide (a > (abs m).guard) && decide (old.length > 0) && old.length == x.length) := by
       have hab : (a != 0) = true := by simp [ha]
       simp only [ha, if_false, hgv, canModify_eq, hab, Bool.true_and]
-    cases hcond : (Spec.canModify m.stages a && decide (old.length > 0) && old.length == x.length) with
+      rfl
+    cases hcond : (Spec.canModify (abs m).marks a && decide (a > (abs m).guard) && decide (old.length > 0) && old.length == x.length) with
     | true =>
       rw [hcond] at hsw
       have hlen : old.length = x.length := by
@@ -273,7 +274,7 @@ theorem writeCore_some {m : VLog} (hi : Inv m) (k x : Bytes) (ops : List Nat) :
       simp only [hva] at hsb
       constructor
       · simp only [VLog.writeCore, Spec.writeCore, hc, hva, hsw, if_true]
-        simp only [absNode, hkey, hvs, Spec.pushOrSwap, abs, hcond, if_true]
+        simp only [absNode, hkey, hvs, Spec.pushOrSwap, hcond, if_true]
         simpa [abs] using hsb.1
       · simp only [VLog.writeCore, hva, hsw, if_true]
         exact hsb.2
@@ -284,7 +285,7 @@ theorem writeCore_some {m : VLog} (hi : Inv m) (k x : Bytes) (ops : List Nat) :
       simp only [hvs, hva] at hpb
       constructor
       · simp only [VLog.writeCore, Spec.writeCore, hc, hva, hsw, Bool.false_eq_true, if_false]
-        simp only [absNode, hkey, hvs, Spec.pushOrSwap, abs, hcond, Bool.false_eq_true, if_false]
+        simp only [absNode, hkey, hvs, Spec.pushOrSwap, hcond, Bool.false_eq_true, if_false]
         simpa [abs, ha, hgv] using hpb.1
       · simp only [VLog.writeCore, hva, hsw, Bool.false_eq_true, if_false]
         simpa [ha, hgv] using hpb.2
